@@ -164,6 +164,9 @@ func (propC03) Exec(p *Plan, x *Ctx) *Outcome {
 			if !strings.Contains(r.got, "eval=error:") && !strings.Contains(r.got, "eval=NEITHER") && !strings.Contains(r.got, "eval=BOTH") {
 				out.Violate("fault-surfaces", "C03/fault-swallowed/"+r.st.fired, "%s: the fault fired but the evaluation gave %s", where, clip(r.got))
 			}
+		case "fn_reenter":
+			// a function that calls back into its calculator returns what that evaluation gave; only the
+			// no-panic / liveness / result-xor-error monitors apply
 		case "fail_at":
 			// the scanner's own panic may propagate or be absorbed; any *other* panic was reported above
 		}
